@@ -1,6 +1,408 @@
 package main
 
-import "ssvharness/internal/common"
+import (
+	"encoding/hex"
+	"fmt"
+	"net/http"
+	"os"
+	"sort"
+	"strings"
 
-func compareModel(res []result, o *common.Options, rep *common.Report) error { return nil }
-func stringsEngine(r *common.Rng, o *common.Options, rep *common.Report) error { return nil }
+	"ssvharness/internal/common"
+
+	"github.com/database64128/shadowsocks-go/conn"
+)
+
+func hx(s string) string {
+	if s == "" {
+		return "-"
+	}
+	return hex.EncodeToString([]byte(s))
+}
+
+func unhx(s string) string {
+	if s == "-" {
+		return ""
+	}
+	b, _ := hex.DecodeString(s)
+	return string(b)
+}
+
+var framingNames = map[string]bool{"host": true, "content-length": true, "transfer-encoding": true, "trailer": true}
+
+// fields as net/http hands them to the proxy code: values without optional white space, framing fields taken out
+func fieldsArg(hs []HF) string {
+	var parts []string
+	for _, h := range hs {
+		if framingNames[strings.ToLower(h.K)] {
+			continue
+		}
+		parts = append(parts, hx(h.K)+":"+hx(ows(h.V)))
+	}
+	if len(parts) == 0 {
+		return "-"
+	}
+	return strings.Join(parts, ",")
+}
+
+func namesArg(ns []string) string {
+	if len(ns) == 0 {
+		return "-"
+	}
+	var parts []string
+	for _, n := range ns {
+		parts = append(parts, hx(n))
+	}
+	return strings.Join(parts, ",")
+}
+
+func b01(b bool) string {
+	if b {
+		return "1"
+	}
+	return "0"
+}
+
+// canonical form of a field list for comparison: sorted by name, values of one name in order
+func canonFields(hs []HF, skip func(HF) bool) string {
+	type kv struct{ k, v string }
+	var xs []kv
+	for _, h := range hs {
+		if skip != nil && skip(h) {
+			continue
+		}
+		xs = append(xs, kv{h.K, ows(h.V)})
+	}
+	sort.SliceStable(xs, func(i, j int) bool { return xs[i].k < xs[j].k })
+	var sb strings.Builder
+	for _, x := range xs {
+		fmt.Fprintf(&sb, "%q=%q;", x.k, x.v)
+	}
+	return sb.String()
+}
+
+func parseModelFields(s string) []HF {
+	if s == "-" {
+		return nil
+	}
+	var hs []HF
+	for _, kv := range strings.Split(s, ",") {
+		k, v, _ := strings.Cut(kv, ":")
+		hs = append(hs, HF{K: unhx(k), V: unhx(v)})
+	}
+	return hs
+}
+
+func skipFramingImpl(h HF) bool {
+	n := strings.ToLower(h.K)
+	return framingNames[n] || n == "connection"
+}
+
+// expected address for a host according to the model's case split, evaluated with the repository's parsers
+func addrFor(class string) (string, bool) {
+	f := strings.Fields(class)
+	switch f[0] {
+	case "empty":
+		return "", false
+	case "hp80":
+		a, err := conn.AddrFromHostPort(unhx(f[1]), 80)
+		return a.String(), err == nil
+	case "parse":
+		a, err := conn.ParseAddr(unhx(f[1]))
+		return a.String(), err == nil
+	}
+	return "", false
+}
+
+func compareModel(res []result, o *common.Options, rep *common.Report) error {
+	// pass 1: the case split of hostHeaderToAddr for every request
+	var l1 []string
+	for _, r := range res {
+		for _, q := range r.c.Reqs {
+			l1 = append(l1, "hostclass "+hx(q.Host))
+		}
+	}
+	classes, err := common.RunDriverOnce(o.Driver, l1)
+	if err != nil {
+		return err
+	}
+	// pass 2: sessions
+	var l2 []string
+	type span struct{ reqAt, nReq, respAt, nResp int }
+	spans := make([]span, len(res))
+	addrs := make([][]string, len(res))
+	ci := 0
+	for i, r := range res {
+		c, obs := r.c, r.obs
+		var toks []string
+		for _, u := range c.Users {
+			toks = append(toks, hx(token(u)))
+		}
+		l2 = append(l2, "cfg "+b01(c.Auth)+" "+strings.Join(toks, ","))
+		sp := span{reqAt: len(l2)}
+		for j, q := range c.Reqs {
+			class := classes[ci]
+			ci++
+			addr, ok := addrFor(class)
+			if q.Method == "CONNECT" && q.Garbage == "" {
+				a, err := conn.ParseAddr(q.Target)
+				addr, ok = a.String(), err == nil
+			}
+			addrs[i] = append(addrs[i], addr)
+			if j >= obs.ClientHeads { // the proxy acts on a request as soon as it has its head
+				continue
+			}
+			if q.Garbage != "" {
+				l2 = append(l2, "garbage")
+			} else {
+				l2 = append(l2, strings.Join([]string{"req", hx(q.Method), hx(q.Host), b01(q.Close), b01(ok), fieldsArg(q.Headers), namesArg(q.Body.Announce), fieldsArg(q.Body.Trailers)}, " "))
+			}
+			sp.nReq++
+		}
+		sp.respAt = len(l2)
+		for _, kj := range obs.OriginSent {
+			idx := c.FirstFwd + kj[0]
+			if idx >= len(c.Scripts) {
+				break
+			}
+			p := c.Scripts[idx].Resps[kj[1]]
+			if p.Garbage != "" {
+				l2 = append(l2, "badresp")
+			} else {
+				loc := "n"
+				if p.LocState == "one" {
+					loc = "h" + hx(p.LocHost)
+					if p.LocHost == "" {
+						loc = "h-"
+					}
+				}
+				method := ""
+				if kj[0] < len(obs.Origin) {
+					method, _, _ = strings.Cut(obs.Origin[kj[0]].Line, " ")
+				}
+				eof := p.Body.Kind == "eof" && method != "HEAD"
+				l2 = append(l2, strings.Join([]string{"resp", fmt.Sprint(p.Status), b01(p.Close), b01(eof), loc, fieldsArg(p.Headers), namesArg(p.Body.Announce), fieldsArg(p.Body.Trailers)}, " "))
+			}
+			sp.nResp++
+		}
+		spans[i] = sp
+	}
+	out, err := common.RunDriverOnce(o.Driver, l2)
+	if err != nil {
+		return err
+	}
+	if os.Getenv("C16_SHOWMODEL") != "" {
+		for i := range l2 {
+			fmt.Fprintf(os.Stderr, "%.150s\n    => %.150s\n", l2[i], out[i])
+		}
+	}
+	for i, r := range res {
+		c, obs := r.c, r.obs
+		if obs.Panic != "" || obs.Hang {
+			rep.Diverge(common.Divergence{Engine: "httpproxy", Case: c, Impl: "panic/hang: " + obs.Panic, Model: "total"})
+			continue
+		}
+		sp := spans[i]
+		mreq := out[sp.reqAt : sp.reqAt+sp.nReq]
+		mresp := out[sp.respAt : sp.respAt+sp.nResp]
+		diverge := func(what string, impl, model any) {
+			rep.Diverge(common.Divergence{Engine: "httpproxy", Case: c, Impl: impl, Model: model, Note: what})
+		}
+		// (a) the handshake
+		n407 := 0
+		handle := ""
+		first := -1
+		for j, m := range mreq {
+			switch {
+			case m == "407":
+				n407++
+				continue
+			case m == "407-closed":
+				handle = fmt.Sprintf("err:authfail-close:%d", n407+1)
+			case m == "readerr":
+				handle = "err:readerr"
+				if n407 > 0 {
+					handle = fmt.Sprintf("err:authfail-then-readerr:%d", n407)
+				}
+			case m == "connect":
+				handle = "connect"
+			case m == "400":
+				handle = "err:badhost"
+				if c.Reqs[j].Method == "CONNECT" {
+					handle = "err:badtarget"
+				}
+			case strings.HasPrefix(m, "fwd "):
+				handle = "fwd"
+			default:
+				handle = "?" + m
+			}
+			first = j
+			break
+		}
+		if handle == "" { // the client's requests ran out during the handshake: ReadRequest sees EOF (or the cut request)
+			handle = "err:readerr"
+			if n407 > 0 {
+				handle = fmt.Sprintf("err:authfail-then-readerr:%d", n407)
+			}
+		}
+		if obs.Handle != handle {
+			diverge("ServerHandle outcome", obs.Handle, handle)
+			continue
+		}
+		if (handle == "fwd" || handle == "connect") && obs.Addr != addrs[i][first] {
+			diverge("target address", obs.Addr, addrs[i][first])
+		}
+		if handle == "fwd" && c.Auth {
+			// the user the connection is attributed to owns a token the accepted request carries
+			okUser := false
+			for _, u := range c.Users {
+				if u.Name == obs.User {
+					for _, h := range c.Reqs[first].Headers {
+						if strings.EqualFold(h.K, "Proxy-Authorization") && strings.HasSuffix(ows(h.V), " "+token(u)) {
+							okUser = true
+						}
+					}
+				}
+			}
+			if !okUser {
+				diverge("username", obs.User, "owner of a presented token")
+			}
+		}
+		if handle != "fwd" {
+			if len(obs.Origin) > 0 {
+				diverge("origin contacted", len(obs.Origin), 0)
+			}
+			continue
+		}
+		// (b) requests at the origin: a prefix of the model's forward list
+		var fwd []string
+		for _, m := range mreq[first:] {
+			if strings.HasPrefix(m, "fwd ") {
+				fwd = append(fwd, m)
+			} else {
+				break
+			}
+		}
+		nComplete := 0
+		for k, m := range obs.Origin {
+			if !m.Complete {
+				break
+			}
+			nComplete++
+			if k >= len(fwd) {
+				diverge("more requests at the origin than the model forwards", len(obs.Origin), len(fwd))
+				break
+			}
+			f := strings.Fields(fwd[k])
+			implH := canonFields(m.Headers, func(h HF) bool {
+				n := strings.ToLower(h.K)
+				return framingNames[n] || (n == "connection" && strings.EqualFold(h.V, "close"))
+			})
+			modH := canonFields(parseModelFields(f[1]), nil)
+			if implH != modH {
+				diverge(fmt.Sprintf("header of origin request %d", k), implH, modH)
+			}
+			implT, modT := canonFields(m.Trailers, nil), canonFields(parseModelFields(f[2]), nil)
+			if implT != modT {
+				diverge(fmt.Sprintf("trailer of origin request %d", k), implT, modT)
+			}
+		}
+		quiet := c.OriginCloseAfter < 0 && c.ClientCut < 0
+		for _, m := range mresp {
+			if !strings.HasPrefix(m, "deliver 0 ") {
+				quiet = false
+			}
+		}
+		if quiet && nComplete != len(fwd) {
+			diverge("number of requests at the origin (nothing ended the connection early)", nComplete, len(fwd))
+		}
+		// (c) responses at the client
+		var fromOrigin []*Msg
+		got502 := false
+		for _, m := range obs.Client {
+			if len(m.get("X-Resp-Id")) > 0 {
+				if m.Complete {
+					fromOrigin = append(fromOrigin, m)
+				}
+			} else if statusOf(m.Line) == 502 {
+				got502 = true
+			}
+		}
+		n := 0
+		want502 := false
+		for _, m := range mresp {
+			if m == "502" {
+				want502 = true
+			}
+			if !strings.HasPrefix(m, "deliver ") {
+				continue
+			}
+			f := strings.Fields(m)
+			if n >= len(fromOrigin) {
+				n++
+				continue
+			}
+			cm := fromOrigin[n]
+			implH := canonFields(cm.Headers, skipFramingImpl)
+			modH := canonFields(parseModelFields(f[3]), skipFramingImpl)
+			if implH != modH {
+				diverge(fmt.Sprintf("header of client response %d", n), implH, modH)
+			}
+			implT, modT := canonFields(cm.Trailers, nil), canonFields(parseModelFields(f[4]), nil)
+			if implT != modT {
+				diverge(fmt.Sprintf("trailer of client response %d", n), implT, modT)
+			}
+			hasClose := false
+			for _, v := range cm.get("Connection") {
+				if strings.EqualFold(v, "close") {
+					hasClose = true
+				}
+			}
+			_ = hasClose // whether Response.Write announces close is net/http's serialisation (e.g. a HEAD response without Content-Length); the end of the connection is compared through the counts
+			n++
+		}
+		if n != len(fromOrigin) {
+			diverge("number of responses delivered to the client", len(fromOrigin), n)
+		}
+		if want502 != got502 {
+			diverge("502 after a malformed response", got502, want502)
+		}
+	}
+	return nil
+}
+
+// stringsEngine: CanonicalHeaderKey and TrimSpace against the model's functions.
+func stringsEngine(r *common.Rng, o *common.Options, rep *common.Report) error {
+	n := o.Budget(3000, 60000)
+	alph := []string{"a", "Z", "-", "_", "x", "0", " ", "\t", ",", ":", "\u00e9", "\u00a0", "\u0085", "\u2003", "\u3000", "\u200b", "\v", "\f", "\r", "\n", "~", "|", "(", "@", "A-b", "te", "CONNECTION", "\u1680", "\u2028", "\u202f", "\u205f", "\u180e", "\x7f", "\x1f", "\u2000", "\u200a", "\u1fff"}
+	var ins []string
+	var lines []string
+	for i := 0; i < n; i++ {
+		var sb strings.Builder
+		k := r.Range(0, 8)
+		for j := 0; j < k; j++ {
+			sb.WriteString(common.Pick(r, alph))
+		}
+		s := sb.String()
+		if r.Chance(1, 4) {
+			s = recase(r, common.Pick(r, append(append([]string{}, e2eReqNames...), hopNames...)))
+		}
+		ins = append(ins, s)
+		lines = append(lines, "canon "+hx(s), "trim "+hx(s))
+	}
+	out, err := common.RunDriverOnce(o.Driver, lines)
+	if err != nil {
+		return err
+	}
+	for i, s := range ins {
+		rep.Case("str:"+s, s != "")
+		if got, want := unhx(out[2*i]), http.CanonicalHeaderKey(s); got != want {
+			rep.Diverge(common.Divergence{Engine: "strings", Case: map[string]string{"canon": s}, Impl: want, Model: got})
+		}
+		if got, want := unhx(out[2*i+1]), strings.TrimSpace(s); got != want {
+			rep.Diverge(common.Divergence{Engine: "strings", Case: map[string]string{"trim": s}, Impl: want, Model: got})
+		}
+	}
+	rep.Count(fmt.Sprintf("strings=%d", n))
+	return nil
+}
